@@ -155,6 +155,9 @@ namespace pika {
         {
             PIKA_ASSERT(update >= 0);
 
+#if defined(PIKA_VERIF)
+            PIKA_VERIF_POINT(917, this);    // arrive_and_wait: before the critical section
+#endif
             std::unique_lock l(mtx_.data_);
 
             std::ptrdiff_t old_count = counter_.fetch_sub(update, std::memory_order_relaxed);
@@ -180,6 +183,9 @@ namespace pika {
                 // re-lock the mutex while exiting from condition_variable::wait
                 while (cond_.data_.notify_one(std::move(l), execution::thread_priority::boost))
                 {
+#if defined(PIKA_VERIF)
+                    PIKA_VERIF_POINT(918, this);    // arrive_and_wait: before re-locking for the next notify_one
+#endif
                     l = std::unique_lock(mtx_.data_);
                 }
             }
